@@ -10,6 +10,7 @@ import (
 	"regexp"
 	"strconv"
 	"strings"
+	"unicode/utf8"
 
 	"golang.org/x/term"
 
@@ -49,7 +50,13 @@ func (r *Runner) bashTest(ctx context.Context, expr syntax.TestExpr, classic boo
 			}
 			return ""
 		}
-		xs, ys := r.bashTest(ctx, x.X, classic), r.bashTest(ctx, x.Y, classic)
+		xs := r.bashTest(ctx, x.X, classic)
+		var ys string
+		if yw, ok := x.Y.(*syntax.Word); ok && !classic && x.Op == syntax.TsReMatch {
+			ys = r.regexWord(yw)
+		} else {
+			ys = r.bashTest(ctx, x.Y, classic)
+		}
 		if !classic {
 			switch x.Op {
 			case syntax.TsEql, syntax.TsNeq, syntax.TsLeq, syntax.TsGeq, syntax.TsLss, syntax.TsGtr:
@@ -69,6 +76,33 @@ func (r *Runner) bashTest(ctx context.Context, expr syntax.TestExpr, classic boo
 		return ""
 	}
 	return ""
+}
+
+// regexWord expands the right-hand side of [[ s =~ word ]] into a regular
+// expression: the quoted parts of the word, including characters escaped
+// with a backslash, match literally.
+func (r *Runner) regexWord(w *syntax.Word) string {
+	var sb strings.Builder
+	for _, part := range w.Parts {
+		switch part := part.(type) {
+		case *syntax.Lit:
+			s := part.Value
+			for i := 0; i < len(s); i++ {
+				if s[i] == '\\' && i+1 < len(s) {
+					_, size := utf8.DecodeRuneInString(s[i+1:])
+					sb.WriteString(regexp.QuoteMeta(s[i+1 : i+1+size]))
+					i += size
+					continue
+				}
+				sb.WriteByte(s[i])
+			}
+		case *syntax.SglQuoted, *syntax.DblQuoted:
+			sb.WriteString(regexp.QuoteMeta(r.literal(&syntax.Word{Parts: []syntax.WordPart{part}})))
+		default:
+			sb.WriteString(r.literal(&syntax.Word{Parts: []syntax.WordPart{part}}))
+		}
+	}
+	return sb.String()
 }
 
 // testArithm evaluates s as an arithmetic expression and returns its value
